@@ -1,4 +1,5 @@
 import EpdVerif.AuditCmd
 import EpdVerif.Props.C09
+import EpdVerif.Props.C09Big
 import EpdVerif.Props.Panels
 #audit_namespace EpdVerif.Props.C09
